@@ -70,7 +70,36 @@ class NpFloatMode(Mode):
         return np.float64(float(fr(q)))
 
 
-MODES = {"fraction": Mode, "int": IntMode, "float": FloatMode, "numpy.float64": NpFloatMode}
+class MinPt:
+    """a minimal user-defined point: supports only point + point and scalar * point (C16)"""
+    __slots__ = ("v",)
+
+    def __init__(self, v):
+        self.v = v
+
+    def __add__(self, other):
+        if not isinstance(other, MinPt):
+            return NotImplemented
+        return MinPt(self.v + other.v)
+
+    def __rmul__(self, scalar):
+        if isinstance(scalar, MinPt):
+            return NotImplemented
+        return MinPt(scalar * self.v)
+
+    def __repr__(self):
+        return f"MinPt({self.v})"
+
+
+class MinPointMode(Mode):
+    """Fraction knots and parameters, control points of the minimal point type"""
+    name = "minimal-point"
+
+    def pt(self, q):
+        return MinPt(fr(q))
+
+
+MODES = {"minimal-point": MinPointMode, "fraction": Mode, "int": IntMode, "float": FloatMode, "numpy.float64": NpFloatMode}
 
 
 def classify(exc):
@@ -164,6 +193,8 @@ class Replayer:
 
     def num_out(self, x):
         """observed number -> comparable: exact JSON rational in exact modes, float otherwise"""
+        if isinstance(x, MinPt):
+            x = x.v
         if self.mode.exact:
             return rat(x)  # raises TypeError if a float sneaked in
         return float(x)
@@ -1230,7 +1261,7 @@ class Replayer:
             try:
                 for g in got:
                     g.degree_increase(1)
-                    g.ctrlpoints = [3 * p + 1 for p in g.ctrlpoints]
+                    g.ctrlpoints = [3 * p for p in g.ctrlpoints]
             except Exception as e:
                 f.append(f"aliasing: mutating a piece raised {type(e).__name__}: {e}")
             if self.project(operand) != before:
